@@ -79,7 +79,9 @@ skipp(__skipspec_t ss, struct dt_dt_s dt)
 	if (ss == 0) {
 		return 0;
 	}
-	dow = dt_get_wday(dt.d);
+	/* month/year steps keep the day-of-month unclamped (2012-02-31),
+	 * the weekday is the one of the date that gets printed */
+	dow = dt_get_wday(dt_fixup(dt).d);
 	/* just check if the bit in the bitset `skip' is set */
 	return (ss & (1 << dow)) != 0;
 }
@@ -319,6 +321,9 @@ static bool
 __in_range_p(struct dt_dt_s now, const struct dseq_clo_s *clo)
 {
 	if (!dt_sandwich_only_t_p(now)) {
+		/* month/year steps keep the day-of-month unclamped, compare
+		 * the date that gets printed */
+		now = dt_fixup(now);
 		if (clo->dir > 0) {
 			return dt_dt_in_range_p(now, clo->fst, clo->lst) == 1;
 		} else if (clo->dir < 0) {
